@@ -123,6 +123,12 @@ def check_identity(c):
                     d = CIPDriver("10.0.0.5")
                     d.open()
                     got = d._list_identity()
+                    if c.get("then"):
+                        tgt.identity.update(dict(c["then"]))
+                        got_b = d._list_identity()
+                        discs += [Disc("again." + x.bucket, x.detail + " [second query after the device's identity changed]")
+                                  for x in diff(got_b, expected(tgt.identity, True), ep)]
+                        tgt.identity.update(idn)
                     d.close()
             finally:
                 harness.uninstall()
@@ -174,10 +180,20 @@ def check_identity(c):
                 plc = LogixDriver("10.0.0.5", init_tags=False)
                 plc.open()
                 got = plc.get_module_info(c["slot"])
+                discs += diff(got, expected(RefTarget({"identity": mod}).identity, False), "module_info")
+                # the module in that slot changes (status word / hot swap): the same driver must report what the device says now
+                if c.get("then"):
+                    mod2 = dict(c["then"])
+                    tgt.rack[c["slot"]] = mod2
+                    if c.get("reconnect"):
+                        plc.close()
+                        plc.open()
+                    got2 = plc.get_module_info(c["slot"])
+                    discs += [Disc("again." + d.bucket, d.detail + " [second query of the same slot after the module changed]")
+                              for d in diff(got2, expected(RefTarget({"identity": mod2}).identity, False), "module_info")]
                 plc.close()
             finally:
                 harness.uninstall()
-            discs += diff(got, expected(RefTarget({"identity": mod}).identity, False), "module_info")
     except PycommError as e:
         discs.append(Disc(f"{ep}.raises.{type(e).__name__}", f"{e!r} <- {e.__cause__!r}"[:500]))
     except Exception as e:
@@ -220,6 +236,11 @@ def cases(draw):
             idn["product_name"] = "2080-" + idn["product_name"][:20]
     if entry == "module_info":
         c["slot"] = draw(st.integers(1, 255))
+        if draw(st.booleans()):
+            c["then"] = draw(identities())
+            c["reconnect"] = draw(st.booleans())
+    if entry == "_list_identity" and draw(st.booleans()):
+        c["then"] = draw(identities())
     if entry == "discover":
         c["others"] = [draw(identities()) for _ in range(draw(st.integers(0, 2)))]
         c["junk"] = draw(st.one_of(st.none(), st.none(), st.binary(max_size=30)))
